@@ -335,13 +335,13 @@ Qed.
 Lemma restart_inv st : Inv st -> Inv (restart H c st).
 Proof.
   intros [I1 I2]. unfold restart.
-  remember (if c_embedded c then [] else reload H (com_id st) (com_alh H st) (physical st)) as back eqn:Hb.
+  remember (reload H (com_id st) (com_alh H st) (physical st)) as back eqn:Hb.
   assert (Bin : forall r, In r back -> In r (physical st) /\ genuine r).
-  { intros r I. rewrite Hb in I. destruct (c_embedded c); [contradiction|].
+  { intros r I. rewrite Hb in I.
     destruct (reload_incl H _ _ _ _ I) as [r0 [I0 E]].
     assert (G : genuine r0) by (apply I2; auto). rewrite (refresh_id r0 G) in E. subst r0. auto. }
   assert (Bid : forall i r, nth_error back i = Some r -> h_id (t_hdr r) = com_id st + 1 + N.of_nat i).
-  { intros i r E. rewrite Hb in E. destruct (c_embedded c); [destruct i; discriminate|].
+  { intros i r E. rewrite Hb in E.
     eapply reload_ids; eauto. }
   apply Inv_may_commit. split.
   - unfold chain. cbn [s_com s_tail]. rewrite live_all. intros i r E.
